@@ -59,7 +59,7 @@ def lse_primitive(ctx, rel='src/mbi/factor.py', qual='Factor.logsumexp', rule='l
     hand-written max-shifted reduction whose shift is sanitised against non-finite values: a slice that is entirely
     -inf (a structurally impossible attribute value) must give -inf, not NaN."""
     repo = ctx.repo
-    fi = repo.func(rel, qual)
+    fi = repo.nfunc(rel, qual)
     mod = fi.module
     todo, seen = [fi], set()
     n = 0
